@@ -273,6 +273,40 @@ def specSchedule (ops : List ThreadOp) : List String :=
       ((expOp (Spec.round m c p n)).replace " " ",") :: go hist r
   go [] ops
 
+def handleNt (ctx : Ctx) (toks : List String) : String × String × String :=
+  match toks with
+  | "nt" :: name :: args =>
+    let d2 (l : List String) : Dec := match l with | a :: p :: _ => ⟨parseInt a, parseNat p⟩ | _ => Dec.ZERO
+    match name with
+    | "iszero" => let d := d2 args; (b2s (eqZero d), b2s (d.coeff = 0), "")
+    | "isone" => let d := d2 args
+      (match eqOne d with | .ok v => b2s v | .panic k => showPanic k, b2s (d.coeff = 10 ^ d.nfrac), "")
+    | "zero" => (showDec Dec.ZERO, "ok 0 0", "")
+    | "one" => (showDec Dec.ONE, "ok 1 0", "")
+    | "abs" => let d := d2 args; (showOutDec (abs ctx.prof d), s!"ok {d.coeff.natAbs} {d.nfrac}", "")
+    | "signum" => let d := d2 args; (showDec (fromInt (Int.sign d.coeff)), s!"ok {Int.sign d.coeff} 0", "")
+    | "ispos" => let d := d2 args; (b2s (isPositive d), b2s (d.coeff > 0), "")
+    | "isneg" => let d := d2 args; (b2s (isNegative d), b2s (d.coeff < 0), "")
+    | "abssub" =>
+      match args with
+      | [a, p, b, q] =>
+        let x : Dec := ⟨parseInt a, parseNat p⟩
+        let y : Dec := ⟨parseInt b, parseNat q⟩
+        let le := match partialCmp x y with | some .lt => true | some .eq => true | _ => false
+        let so := Spec.cmp x.coeff x.nfrac y.coeff y.nfrac
+        (if le then showDec Dec.ZERO else showOutDec (addSub true x y),
+          if so != .gt then "ok 0 0" else expOp (Spec.addSub true x.coeff x.nfrac y.coeff y.nfrac), "")
+      | _ => ("bad-op", "-", "")
+    | "radix" =>
+      match args with
+      | [r, h] =>
+        let s := unhex h
+        if parseNat r ≠ 10 then ("err Invalid", "err Invalid", "")
+        else (showExceptParse (fromStr ctx.prof s), specParse s, "")
+      | _ => ("bad-op", "-", "")
+    | _ => ("bad-op", "-", "")
+  | _ => ("bad-op", "-", "")
+
 def handleThreads (ctx : Ctx) (ops : List String) : String × String × String :=
   match ops.mapM parseThreadOp with
   | none => ("bad-op", "-", "")
@@ -281,6 +315,7 @@ def handleThreads (ctx : Ctx) (ops : List String) : String × String × String :
 
 def handle (ctx : Ctx) (toks : List String) : String × String × String :=
   if toks.head? = some "threads" then handleThreads ctx toks.tail else
+  if toks.head? = some "nt" then handleNt ctx toks else
   let binOps := ["add", "sub", "mul", "div", "rem", "cadd", "csub", "cmul", "cdiv", "crem"]
   let intOps := ["iadd", "isub", "imul", "idiv", "irem", "icadd", "icsub", "icmul", "icdiv", "icrem", "iquant",
     "ieq", "icmp"]
@@ -499,36 +534,6 @@ def handle (ctx : Ctx) (toks : List String) : String × String × String :=
     let so := Spec.cmp a p b q
     (s!"ok,{a},{p} {b2s e}{b2s e}{b2s e} {c} {c} {c}",
       s!"ok,{a},{p} {b2s (so == .eq)}{b2s (so == .eq)}{b2s (so == .eq)} {showOrd so} {showOrd so} {showOrd so}", "")
-  | "nt" :: name :: args =>
-    let d2 (l : List String) : Dec := match l with | a :: p :: _ => ⟨parseInt a, parseNat p⟩ | _ => Dec.ZERO
-    match name with
-    | "iszero" => let d := d2 args; (b2s (eqZero d), b2s (d.coeff = 0), "")
-    | "isone" => let d := d2 args
-      (match eqOne d with | .ok v => b2s v | .panic k => showPanic k, b2s (d.coeff = 10 ^ d.nfrac), "")
-    | "zero" => (showDec Dec.ZERO, "ok 0 0", "")
-    | "one" => (showDec Dec.ONE, "ok 1 0", "")
-    | "abs" => let d := d2 args; (showOutDec (abs ctx.prof d), s!"ok {d.coeff.natAbs} {d.nfrac}", "")
-    | "signum" => let d := d2 args; (showDec (fromInt (Int.sign d.coeff)), s!"ok {Int.sign d.coeff} 0", "")
-    | "ispos" => let d := d2 args; (b2s (isPositive d), b2s (d.coeff > 0), "")
-    | "isneg" => let d := d2 args; (b2s (isNegative d), b2s (d.coeff < 0), "")
-    | "abssub" =>
-      match args with
-      | [a, p, b, q] =>
-        let x : Dec := ⟨parseInt a, parseNat p⟩
-        let y : Dec := ⟨parseInt b, parseNat q⟩
-        let le := match partialCmp x y with | some .lt => true | some .eq => true | _ => false
-        let so := Spec.cmp x.coeff x.nfrac y.coeff y.nfrac
-        (if le then showDec Dec.ZERO else showOutDec (addSub true x y),
-          if so != .gt then "ok 0 0" else expOp (Spec.addSub true x.coeff x.nfrac y.coeff y.nfrac), "")
-      | _ => ("bad-op", "-", "")
-    | "radix" =>
-      match args with
-      | [r, h] =>
-        let s := unhex h
-        if parseNat r ≠ 10 then ("err Invalid", "err Invalid", "")
-        else (showExceptParse (fromStr ctx.prof s), specParse s, "")
-      | _ => ("bad-op", "-", "")
-    | _ => ("bad-op", "-", "")
   | _ => ("bad-op", "-", "")
 
 def profileOf (s : String) : Profile :=
